@@ -200,8 +200,11 @@ class Env:
 
 def widen(old, new):
     """old ∇ new: keep what both agree on, open the bound that moved"""
-    m = {}
+    m = {k: v for k, v in new.m.items() if isinstance(k, tuple) and k[0] == "d"}      # markers: present in either
     for k, a in old.m.items():
+        if isinstance(k, tuple) and k[0] == "d":
+            m[k] = a
+            continue
         b = new.m.get(k)
         if b is None:
             continue
@@ -223,7 +226,12 @@ def contains(big, small):
     """every concrete state of small is one of big"""
     if not big.facts <= small.facts:
         return False
+    for k in small.m:
+        if isinstance(k, tuple) and k[0] == "d" and k not in big.m:
+            return False
     for k, a in big.m.items():
+        if isinstance(k, tuple) and k[0] == "d":
+            continue
         b = small.m.get(k)
         if b is None:
             return False
@@ -686,14 +694,22 @@ class FxAnalyzer:
             r = iv_add(r, iv_mul(v, (c, c)))
         return r
 
-    def fact_bound(self, l, env):
-        """upper bound of the linear form from one fact F <= c:  l = F + (l - F) <= c + ub(l - F)"""
+    def fact_bound(self, l, env, depth=3, used=()):
+        """upper bound of the linear form from the facts:  l = F + (l - F) <= c + ub(l - F)  for a fact F <= c, where
+        the rest is bounded by intervals or, up to three facts deep, in the same way"""
         best = None
-        for terms, c in env.facts:
-            if not any(k in l[0] for k, _ in terms):
+        for f in env.facts:
+            terms, c = f
+            if f in used or not any(k in l[0] for k, _ in terms):
                 continue
             rest = lin_add(l, lin_scale((dict(terms), 0), -1))
+            if len(rest[0]) > len(l[0]) + 1:
+                continue
             ub = self.plain_eval(rest, env)[1]
+            if depth > 1 and rest[0]:
+                ub2 = self.fact_bound(rest, env, depth - 1, used + (f,))
+                if ub2 is not None and (ub is None or ub2 < ub):
+                    ub = ub2
             if ub is None:
                 continue
             if best is None or c + ub < best:
@@ -707,7 +723,20 @@ class FxAnalyzer:
         return e.get("t") or ""
 
     # ---- access checks
-    def note(self, line, text, obj, size, lo, hi):
+    def derived_in(self, exprs, env):
+        """does an expression mention a variable whose value was computed from other variables in a way the linear
+        facts could not record (the relation to its operands is lost, so a bound on it proves nothing)"""
+        for e in exprs:
+            for n in walk(e):
+                if n.get("k") in ("Ref", "Member"):
+                    key = self.key_of(n)
+                    if key is not None and env.get(("d", key)) is not None:
+                        return True
+                    if n.get("k") == "Ref" and n.get("p") and env.get(("d", n.get("id"))) is not None:
+                        return True
+        return False
+
+    def note(self, line, text, obj, size, lo, hi, exprs=(), env=None):
         """octets [lo, hi) relative to the object's start are touched (either end may be unknown)"""
         if not self.soft:
             if hi is not None and hi > BIG:
@@ -719,6 +748,8 @@ class FxAnalyzer:
         elif lo is not None and lo >= size and size > 0:
             verdict = "violation"          # already the first octet touched lies beyond the object
         else:
+            verdict = "undecided"
+        if verdict == "violation" and env is not None and self.derived_in(exprs, env):
             verdict = "undecided"
         key = (line, text)
         self.acc.setdefault(key, []).append(verdict)
@@ -738,9 +769,9 @@ class FxAnalyzer:
                 off = iv_add(base[3], iv_mul(i, (esz, esz)))
                 if under_addr:
                     # &a[N] is a valid one-past pointer: nothing is touched
-                    self.note(line, "&" + self.text(e), base[1], base[2], off[0], off[1])
+                    self.note(line, "&" + self.text(e), base[1], base[2], off[0], off[1], (e,), env)
                 else:
-                    self.note(line, self.text(e), base[1], base[2], off[0], None if off[1] is None else off[1] + esz)
+                    self.note(line, self.text(e), base[1], base[2], off[0], None if off[1] is None else off[1] + esz, (e,), env)
             self.check_expr(e["b"], env, line)
             self.check_expr(e["i"], env, line)
             return
@@ -748,7 +779,7 @@ class FxAnalyzer:
             p = self.pval(e["e"], env)
             esz = self.ty.sizeof(e.get("t") or "")
             if p is not None and esz:
-                self.note(line, self.text(e), p[1], p[2], p[3][0], None if p[3][1] is None else p[3][1] + esz)
+                self.note(line, self.text(e), p[1], p[2], p[3][0], None if p[3][1] is None else p[3][1] + esz, (e,), env)
             self.check_expr(e["e"], env, line)
             return
         if k == "Un" and e["op"] == "&":
@@ -773,7 +804,8 @@ class FxAnalyzer:
                         end = self.lin_eval(lin_add(pl, nl), env)
                         if end[1] is not None and (hi is None or end[1] < hi):
                             hi = end[1]
-                    self.note(line, "%s(.., %s, ..)" % (e["callee"], self.text(e["a"][pi])), p[1], p[2], lo, hi)
+                    self.note(line, "%s(.., %s, ..)" % (e["callee"], self.text(e["a"][pi])), p[1], p[2], lo, hi,
+                              (e["a"][pi], e["a"][spec[1]]), env)
             for a in e["a"]:
                 self.check_expr(a, env, line)
             return
@@ -846,7 +878,28 @@ class FxAnalyzer:
                     if lo is not None and (v[0] is None or lo > v[0]):
                         v = (lo, v[1])
         self.ktype[key] = lhs.get("t") or ""
+        eq = None
+        derived = False
+        if op == "=":
+            l = self.lin_safe(val_e, env)
+            if l is not None and l[0] and key not in l[0] and len(l[0]) <= 3:
+                eq = l
+            elif l is None or l[0]:
+                # computed from other variables in a way that is not recorded: remember that the relation is lost
+                derived = any(self.key_of(n) not in (None, key) for n in walk(val_e) if n.get("k") in ("Ref", "Member"))
+        else:
+            derived = env.get(("d", key)) is not None or any(self.key_of(n) not in (None, key) for n in walk(val_e)
+                                                              if n.get("k") in ("Ref", "Member"))
+            if op in ("+=", "-=") and self.lin_safe(val_e, env) is not None and env.get(("d", key)) is None:
+                derived = False       # x += e keeps x an interval quantity; the facts about the old x were dropped
         env = env.kill(key).set(key, self.fit(lhs, v))
+        env = env.set(("d", key), (1, 1) if derived else None)
+        if eq is not None:
+            # key == l as two facts
+            d1 = lin_add(({key: 1}, 0), lin_scale(eq, -1))
+            env = env.add_fact(d1[0], -d1[1])
+            d2 = lin_scale(d1, -1)
+            env = env.add_fact(d2[0], -d2[1])
         if isinstance(key, tuple) and self.other_ptrs:
             # two pointers to the same structure type may point to the same object
             rec = self.state_rec if key[0] == "f" else self.group_rec(key[1])
@@ -1416,8 +1469,11 @@ def lin_scale(a, k):
 
 def join(a, b):
     """hull (no widening)"""
-    m = {}
+    m = {k: v for k, v in b.m.items() if isinstance(k, tuple) and k[0] == "d"}
     for k, x in a.m.items():
+        if isinstance(k, tuple) and k[0] == "d":
+            m[k] = x
+            continue
         y = b.m.get(k)
         if y is None:
             continue
